@@ -6,6 +6,7 @@ import (
 	"fmt"
 	"os"
 	"os/exec"
+	"path/filepath"
 	"regexp"
 	"strings"
 	"sync"
@@ -54,8 +55,11 @@ var raceFrame = regexp.MustCompile(`(?m)^  (larking\.io/larking\.[^\s(]+)`)
 // reports of the Go race detector) into the result.
 func runStress(c *Ctx, prop string, millis int) {
 	bin := os.Getenv("VERIF_RACE_BIN")
-	if bin == "" {
+	if bin == "" { // next to this binary: the pair is built together by bin/check
 		bin = "/verif/.build/harness-race"
+		if exe, err := os.Executable(); err == nil {
+			bin = filepath.Join(filepath.Dir(exe), "harness-race")
+		}
 	}
 	if _, err := os.Stat(bin); err != nil {
 		c.SpecFail("stress", bin, "race-enabled harness binary missing", "built by bin/check", prop+"/stress-binary-missing", "the concurrent part of the check could not run")
